@@ -532,3 +532,51 @@ func (v *Verifier) entails(s *State, g *Term) bool {
 	v.nQueries++
 	return verdict == "unsat"
 }
+
+// crossCheck re-runs the script that discharged each obligation on every solver of the
+// portfolio (20 s each) and counts the obligations on which some solver answers `sat`.
+func crossCheck(jobs []*obJob, workers int, scratch string) int {
+	var mu sync.Mutex
+	bad := 0
+	var wg sync.WaitGroup
+	ch := make(chan *obJob)
+	for w := 0; w < workers; w++ {
+		wg.Add(1)
+		go func() {
+			defer wg.Done()
+			for j := range ch {
+				o := j.o
+				if o.MustSat || o.Verdict != "unsat" || o.Script == "" {
+					continue
+				}
+				h := sha256.Sum256([]byte(o.Script))
+				file := filepath.Join(scratch, fmt.Sprintf("x%x-%d-%d.smt2", h[:8], os.Getpid(), atomic.AddInt64(&scriptSeq, 1)))
+				os.WriteFile(file, []byte(o.Script), 0o644)
+				for _, sp := range solvers {
+					if sp.name == o.Solver {
+						continue
+					}
+					vd, _ := runSolver(context.Background(), sp, file, 20000)
+					if vd == "sat" {
+						mu.Lock()
+						bad++
+						fmt.Printf("ERROR solver disagreement on %s: %s proved unsat, %s answers sat\n", o.Name, o.Solver, sp.name)
+						mu.Unlock()
+					}
+					if vd == "unsat" {
+						mu.Lock()
+						o.CrossConfirmed = append(o.CrossConfirmed, sp.name)
+						mu.Unlock()
+					}
+				}
+				os.Remove(file)
+			}
+		}()
+	}
+	for _, j := range jobs {
+		ch <- j
+	}
+	close(ch)
+	wg.Wait()
+	return bad
+}
